@@ -49,6 +49,46 @@ def expectedHardcoded : List (String × String × String) := [
   ("photon_weave/state/polarization.py", "apply_operation", "ab,bc,dc->ad")
 ]
 
+/-- the same literals as label lists: (file, function, input label lists, output labels) -/
+def expectedPlans : List (String × String × List (List Nat) × List Nat) := [
+  ("photon_weave/state/custom_state.py", "apply_operation", [[0, 1], [1, 2]], [0, 2]),
+  ("photon_weave/state/custom_state.py", "apply_operation", [[0, 1], [1, 2], [3, 2]], [0, 3]),
+  ("photon_weave/state/envelope.py", "measure", [[0, 1], [2, 1]], [0, 2, 1]),
+  ("photon_weave/state/envelope.py", "measure", [[0, 1], [2, 1]], [0, 2, 1]),
+  ("photon_weave/state/envelope.py", "measure", [[0, 1, 2, 2]], [0, 1]),
+  ("photon_weave/state/envelope.py", "measure", [[0, 0, 1, 2]], [1, 2]),
+  ("photon_weave/state/envelope.py", "measure", [[0, 1], [2, 3]], [0, 1, 2, 3]),
+  ("photon_weave/state/envelope.py", "measure", [[0, 1], [2, 3]], [0, 1, 2, 3]),
+  ("photon_weave/state/envelope.py", "measure", [[0, 0, 1, 2]], [1, 2]),
+  ("photon_weave/state/envelope.py", "measure", [[0, 1, 2, 2]], [0, 1]),
+  ("photon_weave/state/envelope.py", "measure", [[0, 1], [2, 3]], [0, 1, 2, 3]),
+  ("photon_weave/state/envelope.py", "measure", [[0, 1], [2, 3]], [0, 1, 2, 3]),
+  ("photon_weave/state/envelope.py", "measure", [[0, 1, 2]], [0, 2]),
+  ("photon_weave/state/envelope.py", "measure", [[0, 1, 2]], [1, 2]),
+  ("photon_weave/state/envelope.py", "measure", [[0, 1, 2]], [0, 2]),
+  ("photon_weave/state/envelope.py", "measure", [[0, 1, 2]], [1, 2]),
+  ("photon_weave/state/envelope.py", "measure", [[0, 1, 2, 1]], [0, 2]),
+  ("photon_weave/state/envelope.py", "measure", [[0, 1, 0, 2]], [1, 2]),
+  ("photon_weave/state/envelope.py", "measure", [[0, 1, 2, 1]], [0, 2]),
+  ("photon_weave/state/envelope.py", "measure", [[0, 1, 0, 2]], [1, 2]),
+  ("photon_weave/state/envelope.py", "measure", [[0, 1, 2, 1]], [0, 2]),
+  ("photon_weave/state/envelope.py", "measure", [[0, 1, 0, 2]], [1, 2]),
+  ("photon_weave/state/envelope.py", "measure", [[0, 1, 2, 1]], [0, 2]),
+  ("photon_weave/state/envelope.py", "measure", [[0, 1, 0, 2]], [1, 2]),
+  ("photon_weave/state/envelope.py", "measure_POVM", [[0, 1, 2, 3], [1, 4, 2, 5], [6, 4, 7, 5]], [0, 6, 3, 7]),
+  ("photon_weave/state/envelope.py", "measure_POVM", [[0, 1], [1, 2, 3, 4], [5, 2]], [0, 5, 3, 4]),
+  ("photon_weave/state/envelope.py", "measure_POVM", [[0, 1, 2, 2]], [0, 1]),
+  ("photon_weave/state/envelope.py", "measure_POVM", [[0, 0, 1, 2]], [1, 2]),
+  ("photon_weave/state/envelope.py", "apply_kraus", [[0, 1], [1, 2], [3, 2]], [0, 3]),
+  ("photon_weave/state/envelope.py", "apply_kraus", [[0, 1], [1, 2, 3, 4], [5, 2]], [0, 5, 3, 4]),
+  ("photon_weave/state/envelope.py", "apply_operation", [[0, 1], [1, 2, 3]], [0, 2, 3]),
+  ("photon_weave/state/envelope.py", "apply_operation", [[0, 1], [1, 2, 3, 4], [5, 2]], [0, 5, 3, 4]),
+  ("photon_weave/state/fock.py", "apply_operation", [[0, 1], [1, 2]], [0, 2]),
+  ("photon_weave/state/fock.py", "apply_operation", [[0, 1], [1, 2], [3, 2]], [0, 3]),
+  ("photon_weave/state/polarization.py", "apply_operation", [[0, 1], [1, 2]], [0, 2]),
+  ("photon_weave/state/polarization.py", "apply_operation", [[0, 1], [1, 2], [3, 2]], [0, 3])
+]
+
 /-- parameter-free gate matrices as tables of symbolic atoms -/
 def expectedGates : List (String × List (List String)) := [
   ("identity_operator", [["one", "zero"], ["zero", "one"]]),
